@@ -64,7 +64,7 @@ def seqops(name, ops, maxd, pres, **kw):
     d.update(kw.pop('defines_extra', {}))
     h.update(kw); return h
 HARNESSES += [
-  grow('single_gb', ('gb',), True, 0, [sc2(p, m, 5, MIND=1, MAXD=5, TABW=8, **({'PROBE': 0} if p else {})) for p, m in ((0, 0), (1, 0), (3, 0), (3, 1), (5, 1), (6, 0), (7, 0), (7, 1), (8, 1))], K=6),
+  grow('single_gb', ('gb',), True, 0, [sc2(p, m, 5, MIND=1, MAXD=5, TABW=8, **({'PROBE': 0} if p else {})) for p, m in ((6, 0), (7, 1))], K=6),
   #seqops('seq_gb_gb', ('gb', 'gb'), 5, (0, 3, 6), defines_extra={'MIND': 1, 'TABW': 8, 'NODESTROY': 1}, cbmc=['--unwind', '20', '--unwindset', 'vp_memset.0:66,vp_memset.1:66', '--object-bits', '10']),
   grow('pb2', ('pb', 'pb'), False, 2, [sc2(p, 0, 2, **({'PROBE': 0} if p else {})) for p in (0, 1, 2, 3)]),
   grow('pb_gb', ('pb', 'gb'), False, 2, [sc2(p, m, 4, **({'PROBE': 0} if p else {})) for p, m in ((0, 0), (1, 0), (3, 0), (3, 1))], tiers=('thorough',), timeout=3600),
